@@ -28,6 +28,11 @@ var opSiteAttribution = map[string]string{
 	"desugarNestedRHS": "nested_op",
 }
 
+// operator tokens the grammar's regular expressions over-generate and the compiler rejects with an ordinary error
+var overGenerated = map[string]string{
+	"~": "the binop regex `~~?` also matches a lone ~, which is not an arr.ai operator",
+}
+
 func grammarText(p *Program, r *Report) (string, token.Pos) {
 	pk := p.PkgSyntax("syntax")
 	if pk == nil {
@@ -176,7 +181,9 @@ func ruleOpTablesNamed(p *Program, r *Report, ruleName string) {
 		nDyn++
 		if s.commaOk {
 			r.OK(fmt.Sprintf("lookup@%s#%s", s.fn, s.table), "lookup tests presence (comma-ok)", s.pos)
-			continue
+			if ruleName != "R08a" {
+				continue // for C10 a guarded lookup cannot crash
+			}
 		}
 		labels := s.labels
 		if labels == nil {
@@ -219,6 +226,14 @@ func ruleOpTablesNamed(p *Program, r *Report, ruleName string) {
 		}
 		for _, tok := range dedupe(tokens) {
 			_, has := keys[s.table][tok]
+			if !has && s.commaOk {
+				if why, ok := overGenerated[tok]; ok {
+					r.OK(fmt.Sprintf("token@%s#%s[%q]", s.fn, s.table, tok), "rejected with a compile error: "+why, s.pos)
+					continue
+				}
+				r.Viol(fmt.Sprintf("token@%s#%s[%q]", s.fn, s.table, tok), fmt.Sprintf("the grammar (%v) accepts operator %q but %s has no constructor for it: the documented operator is rejected at compile time", used, tok, s.table), s.pos)
+				continue
+			}
 			r.Check(has, fmt.Sprintf("token@%s#%s[%q]", s.fn, s.table, tok),
 				fmt.Sprintf("grammar term %v token has a table entry", used),
 				fmt.Sprintf("the grammar (%v) accepts operator %q but %s has no entry for it and %s calls the looked-up function without a presence test: nil-function call (crash) on that source text", used, tok, s.table, s.fn), s.pos)
